@@ -619,6 +619,8 @@ class Client:
         :param scriptsize: script's size
         :rtype: boolean
         """
+        if not 0 <= scriptsize < 2**32:
+            raise Error("Invalid script size: %s" % scriptsize)
         code, data = self.__send_command(
             "HAVESPACE", [scriptname.encode("utf-8"), scriptsize]
         )
